@@ -123,7 +123,7 @@ func dataflowCase(c *Ctx, focus string) {
 		gcfg.MapBias = true
 	}
 	prog := Generate(c.Plan, gcfg)
-	narrow := false
+	narrow, nested := false, false
 	if !AdvOn {
 		switch c.Plan.Draw(16) {
 		case 0, 1:
@@ -133,10 +133,19 @@ func dataflowCase(c *Ctx, focus string) {
 			prog = templateNarrowProg(c.Plan)
 			narrow = true
 			c.Res.Probes["template-narrowing-program"]++
+		case 3:
+			prog = templateNestedProg(c.Plan)
+			nested = true
+			c.Res.Probes["template-nested-map-program"]++
 		}
 	}
 	cfg := &RunCfg{Prog: prog, FCfg: &FCfg{MaxLen: 1 + c.Plan.Draw(3), MaxChunks: c.Plan.Draw(4), Salt: "df", AllowNil: c.Plan.Draw(4) == 0},
 		MaxSteps: 60000}
+	if nested {
+		cfg.FCfg.MaxLen = 2 + c.Plan.Draw(2)
+		cfg.FCfg.Salt = fmt.Sprintf("nest%d", c.Plan.Draw(4000))
+		cfg.FCfg.AllowNil = false
+	}
 	if narrow {
 		cfg.FCfg.AllowNil = c.Plan.Draw(4) > 0
 		cfg.FCfg.MaxLen = 2 + c.Plan.Draw(5)
@@ -343,6 +352,51 @@ func templateNarrowProg(plan *Tape) *Prog {
 	}
 	p.Pipelines = append(p.Pipelines, top)
 	p.Top = &CallDef{Callee: "TOPN", Id: "TOPN", Binds: []Bind{{"seed", &Expr{Kind: ELit, Val: int64(plan.Draw(1000)), T: intT}, false}}}
+	return p
+}
+
+// templateNestedProg: a pipeline holding a map call over an array is itself map-called
+// over collections of arrays that a stage produces at run time (array of arrays,
+// typed map of arrays): the fork count of every level is only known at run time and
+// the inner sizes differ between outer elements (one-element, empty and longer rows
+// side by side).  Every (outer, inner) combination runs exactly once (C03).
+func templateNestedProg(plan *Tape) *Prog {
+	p := &Prog{}
+	intT := Ty{Base: "int"}
+	ref := func(call string, path ...string) *Expr { return &Expr{Kind: ERef, Call: call, Path: path} }
+	self := func(path ...string) *Expr { return &Expr{Kind: ERef, Self: true, Path: path} }
+	grid := Ty{Base: "int", Dims: "aa"}
+	keyed := Ty{Base: "int", Dims: "ma"}
+	work := &StageDef{Name: "WORK", SrcKind: "comp", Ins: []Field{{"x", intT}, {"k", intT}}, Outs: []Field{{"y", intT}}}
+	if plan.Draw(3) == 0 {
+		work.Split = true
+		work.ChunkIns = []Field{{"c0", intT}}
+		work.ChunkOuts = []Field{{"part", intT}}
+	}
+	p.Stages = []*StageDef{
+		{Name: "MAKE", SrcKind: "comp", Ins: []Field{{"n", intT}}, Outs: []Field{{"grid", grid}, {"keyed", keyed}}},
+		work,
+	}
+	row := &PipelineDef{Name: "ROW", Ins: []Field{{"xs", intT.ArrayOf()}, {"k", intT}}, Outs: []Field{{"ys", intT.ArrayOf()}}}
+	row.Calls = []*CallDef{{Callee: "WORK", Id: "WORK", Mapped: true, Binds: []Bind{{"x", self("xs"), true}, {"k", self("k"), false}}}}
+	row.Ret = []Bind{{"ys", ref("WORK", "y"), false}}
+	top := &PipelineDef{Name: "TOPX", Ins: []Field{{"n", intT}}}
+	top.Calls = []*CallDef{{Callee: "MAKE", Id: "MAKE", Binds: []Bind{{"n", self("n"), false}}}}
+	lit := func(v int) *Expr { return &Expr{Kind: ELit, Val: int64(v), T: intT} }
+	if plan.Draw(4) > 0 {
+		// (returning ROW.ys as int[][] is refused by the compiler - "filtering
+		// merge: unexpected merge expression for int" - so the rows are only run)
+		top.Calls = append(top.Calls, &CallDef{Callee: "ROW", Id: "ROW", Mapped: true, Binds: []Bind{{"xs", ref("MAKE", "grid"), true}, {"k", lit(1), false}}})
+		top.Outs = append(top.Outs, Field{"grid", grid})
+		top.Ret = append(top.Ret, Bind{"grid", ref("MAKE", "grid"), false})
+	}
+	if plan.Draw(2) == 0 || len(top.Calls) == 1 {
+		top.Calls = append(top.Calls, &CallDef{Callee: "ROW", Id: "ROW_K", Mapped: true, Binds: []Bind{{"xs", ref("MAKE", "keyed"), true}, {"k", lit(2), false}}})
+		top.Outs = append(top.Outs, Field{"bykey", keyed})
+		top.Ret = append(top.Ret, Bind{"bykey", ref("ROW_K", "ys"), false})
+	}
+	p.Pipelines = []*PipelineDef{row, top}
+	p.Top = &CallDef{Callee: "TOPX", Id: "TOPX", Binds: []Bind{{"n", lit(plan.Draw(10000)), false}}}
 	return p
 }
 
